@@ -36,10 +36,7 @@ func staleTails(v reflect.Value, r *rand.Rand, depth int) {
 			}
 		}
 	case reflect.Slice:
-		if v.Type().Elem().Kind() == reflect.Interface {
-			return
-		}
-		for i := 0; i < v.Len() && i < 4; i++ {
+		for i := 0; i < v.Len() && i < 4 && v.Type().Elem().Kind() != reflect.Interface; i++ {
 			staleTails(v.Index(i), r, depth+1)
 		}
 		if v.Len() >= 2 && v.CanSet() && r.IntN(2) == 0 {
